@@ -48,7 +48,7 @@ func aggGuardSpec() *guardSpec {
 func init() {
 	register(&propDef{
 		ID:          "C13",
-		Explanation: "Structural necessary conditions of thread-safety of the aggregation process, decided on SSA with an interprocedural, context-sensitive must-hold lockset: (1) guarded-by: every access to AggregationProcess.flowKeyRecordMap / expirePriorityQueue / workerList (loads, map lookups/updates/deletes, ranges, element stores, the address handed to container/heap or to pointer-receiver queue methods) and every invocation of a user FlowKeyRecordMapCallBack happens with AggregationProcess.mutex held in the mode the access needs (W for mutation, heap operations and callbacks; R suffices for pure reads), in every calling context; (2) balanced: every exit of every function in pkg/intermediate leaves the lockset as at entry; (3) single critical section: no operation releases the mutex and acquires it again (check-then-act / unlock around a callback), back edges excluded; (4) no reference to guarded state is returned. Not decided: sequential correctness of each operation (C05-C07), races on caller-held objects, fairness. Later additions: the clock read that deadlines are computed from needs the lock; no TryLock on the process mutex; setters of slice-valued elements replace the slice (query results are handed out by reference); a worker hands every received message to its job.",
+		Explanation: "Structural necessary conditions of thread-safety of the aggregation process, decided on SSA with an interprocedural, context-sensitive must-hold lockset: (1) guarded-by: every access to AggregationProcess.flowKeyRecordMap / expirePriorityQueue / workerList (loads, map lookups/updates/deletes, ranges, element stores, the address handed to container/heap or to pointer-receiver queue methods) and every invocation of a user FlowKeyRecordMapCallBack happens with AggregationProcess.mutex held in the mode the access needs (W for mutation, heap operations and callbacks; R suffices for pure reads), in every calling context; (2) balanced: every exit of every function in pkg/intermediate leaves the lockset as at entry; (3) single critical section: no operation releases the mutex and acquires it again (check-then-act / unlock around a callback), back edges excluded; (4) no reference to guarded state is returned. Not decided: sequential correctness of each operation (C05-C07), races on caller-held objects, fairness. Later additions: the clock read that deadlines are computed from needs the lock; no TryLock on the process mutex; setters of slice-valued elements replace the slice (query results are handed out by reference); a worker hands every received message to its job. Round-five additions: methods of lock-bearing structs have pointer receivers (a value receiver locks a copy).",
 		Assume: []string{"sync.RWMutex / Go memory model semantics", "lock identity is (struct type, field): a function manipulates one AggregationProcess at a time (its receiver)",
 			"dynamic calls are resolved to address-taken repo functions of identical signature; functions whose value escapes to non-repo code are analysed with the empty lockset"},
 		Run: runC13,
